@@ -476,12 +476,14 @@ def build_obligations(prop, tier):
         if rc3 != 0 or not os.path.exists(modelrun_path(prop.ID)):
             res["broken"].append("build:modelrun")
             res["log"] += out3
-        if tier == "thorough" and os.environ.get("VERIF_COQCHK", "1") == "1":
-            mod = "Bits." + pfile[:-2].replace("/", ".")
-            rc4, out4 = run("coqchk -silent -o -Q . Bits %s" % mod, cwd=os.path.join(VERIF, "coq"), timeout=3000)
-            res["coqchk"] = out4[-3000:]
-            if rc4 != 0:
-                res["broken"].append("coqchk:" + mod)
+    # independent re-check of the compiled property file and everything it depends on (thorough tier);
+    # outside the build lock: it only reads .vo files and can take many minutes (it re-runs the small-curve sweeps)
+    if tier == "thorough" and os.environ.get("VERIF_COQCHK", "1") == "1" and not res["broken"]:
+        mod = "Bits." + pfile[:-2].replace("/", ".")
+        rc4, out4 = run("coqchk -silent -o -Q . Bits %s" % mod, cwd=os.path.join(VERIF, "coq"), timeout=3400)
+        res["coqchk"] = out4[-3000:]
+        if rc4 != 0:
+            res["broken"].append("coqchk:" + mod)
     res["discharged"] = max(0, res["obligations"] - len([b for b in res["broken"] if ":" in b and not b.startswith(("axiom:", "gen:", "build:", "coqchk:"))]))
     return res
 
